@@ -71,7 +71,7 @@ type c13case struct {
 	Bound   int   `json:"bound"`
 }
 
-var c13configs = []string{"1 normal + 1 error writer", "2 normal + 2 error writers", "2+2 and a per-level writer for Info", "one writer in both the normal and the error list (+1 each)"}
+var c13configs = []string{"1 normal + 1 error writer", "2 normal + 2 error writers", "2+2 and a per-level writer for Info", "one writer in both the normal and the error list (+1 each)", "4 normal + 4 error writers"}
 
 var c13classes = []struct {
 	name string
@@ -105,6 +105,10 @@ func c13build(w *c13world, config int, level slog.Level) *c13setup {
 			l.AddLevelWriter(slog.InfoLevel, mk("li"))
 			st.leveled[slog.InfoLevel] = []string{"li"}
 		}
+	case 4:
+		l.SetWriter(mk("n1")).AddWriter(mk("n2")).AddWriter(mk("n3")).AddWriter(mk("n4"))
+		l.SetErrorWriter(mk("e1")).AddErrorWriter(mk("e2")).AddErrorWriter(mk("e3")).AddErrorWriter(mk("e4"))
+		st.normal, st.errw = []string{"n1", "n2", "n3", "n4"}, []string{"e1", "e2", "e3", "e4"}
 	case 3:
 		sh := mk("shared")
 		l.SetWriter(sh).AddWriter(mk("n2")).SetErrorWriter(sh).AddErrorWriter(mk("e2"))
@@ -343,7 +347,12 @@ func c13run(c *Ctx) {
 				}
 				cas := c13case{Config: cfg, Level: int(lv), Seq: seq, Bound: bound}
 				b := bound
-				if len(seq) <= fullLen {
+				if cfg == 4 {
+					// the wide configuration: deviation-bounded only, shorter sequences
+					if len(seq) > maxLen-1 {
+						continue
+					}
+				} else if len(seq) <= fullLen {
 					b = -1 // all 2^n assignments
 					cas.Bound = -1
 				}
